@@ -79,6 +79,11 @@ THEOREMS = {
     "C19_uninterrupted_retrospective_invocation": "never-interrupted retrospective invocation: n successful launches (the ideal commands) then one call that returns False; completed = crash_free",
     "C19_resume_refuted_empty_iter": "REFUTED for the examine of /repo today: batch size 2, crash between the two makedirs levels -> a completed step is deleted and launched again",
     "C19_resume_refuted_marker_early": "REFUTED without marker_last even with the repair: prospective mode, metadata published first (data dependence allows it) -> step without selection counts as complete",
+    "C19_model_is_source_examine": "the WHOLE function examine_output_dir_to_determine_current_iteration of /repo's script, re-translated into Gallina on every run, equals the model's examine with "
+                                   "fixed = true for every tree and batch size: both filtered + numerically sorted globs, the `continue` on an iteration directory without plate directories, current_plate_idx = 0, "
+                                   "the enumerate loop with its two raises and the directory each names, the leaked plate_dir, the next-step arithmetic, both returns",
+    "C19_model_is_source_examine_determines_fixed": "the translation determines the model parameter: src_examine = examine fixed for all inputs IFF fixed = true",
+    "C19_model_is_source_examine_not_unrepaired": "the translated examine differs from the unrepaired model (fixed = false) on the tree of C19_resume_refuted_empty_iter's witness (iter_1 created but empty)",
 }
 ASSUMPTIONS = [
     "no nextflow engine is available: the three workflows are represented by harness/fake_nextflow/nextflow, whose publications follow main.nf / the "
